@@ -102,7 +102,7 @@ func c04Run(b *core.B) {
 	for i, k := range SmallKinds {
 		small[i] = "v_" + k
 	}
-	lits := []string{"0", "1", "2", "99", "0 - 1", `"a"`, `"zz"`, "nil", "true", "1.5", "[1, 2]", "{a: 1}"}
+	lits := []string{"0", "1", "2", "99", "0 - 1", `"a"`, `"zz"`, "nil", "true", "1.5", "[1, 2]", "{a: 1}", "-1", "fn(a) { return a }"}
 
 	// operators
 	for _, op := range c04Ops {
@@ -113,6 +113,24 @@ func c04Run(b *core.B) {
 			for _, r := range lits {
 				cell("op-lit", "<%= "+l+" "+op+" "+r+" %>")
 				cell("op-lit", "<%= "+r+" "+op+" "+l+" %>")
+			}
+		}
+	}
+	for _, t := range []string{
+		"<% let f = fn(a) { return a } %><%= f %>", "<%= fn() { } %>", "<% let f = fn(a, b) { %>x<% } %><%= [f, f] %>", "<%= -1 %>", "<%= -v_int1 %>", "<%= - %>", "<%= !-1 %>",
+		"<% let f = fn() { return fn() { return 1 } } %><%= f()() %>", "<%= {a: fn() { return 1 }} %>", "<% let f = fn(a) { return a } %><%= f + 1 %><%= f == f %><%= len(f) %>",
+	} {
+		cell("fn-values-and-prefix", t)
+	}
+	// pure scripts through RunScript
+	for _, sc := range []string{"let a = 1\n a = a + 1", "let a = [1,2]\n a[5] = 1", "print(nope)", "let f = fn(x) { return x }\n f()", "for (x) in 5 { }", "if (true) { return 1 }", "1 / 0", "let a = {}\n a.b = 1", ")", "", "let x = truncate(5, 5)"} {
+		idx++
+		if b.Mine(idx) && b.Begin("RunScript: "+sc) {
+			pan := core.Guard(func() { _ = plush.RunScript(sc, c04Ctx()) })
+			b.Count("runscript")
+			b.NonTrivialDistinct()
+			if pan != nil {
+				b.Violate("runscript/"+pan.Sig(), pan.Value)
 			}
 		}
 	}
@@ -371,9 +389,9 @@ func c04RandomProgram(r *core.Rng, kn []string) string {
 
 func init() {
 	core.Register(&core.Prop{
-		ID:    "C04",
-		Level: "exploration",
-		Rule: fmt.Sprintf("one tiny template per cell of exhaustive matrices over a pool of %d value kinds (fresh context per cell): operator x left x right, index read/write x container x index x value, receiver x member/method, iterable, callee signature x argument tuples (0-3 args), user functions x arity, every built-in helper (enumerated from plush.Helpers at run time) x argument kinds; plus random well-formed programs with leaves from the pool. A cell is non-trivial when it was rendered (all are distinct by construction; random programs are counted by hash). Oracle: recover() sees no panic; an error comes with empty output.", len(Kinds)),
+		ID:         "C04",
+		Level:      "exploration",
+		Rule:       fmt.Sprintf("one tiny template per cell of exhaustive matrices over a pool of %d value kinds (fresh context per cell): operator x left x right, index read/write x container x index x value, receiver x member/method, iterable, callee signature x argument tuples (0-3 args), user functions x arity, every built-in helper (enumerated from plush.Helpers at run time) x argument kinds; plus random well-formed programs with leaves from the pool. A cell is non-trivial when it was rendered (all are distinct by construction; random programs are counted by hash). Oracle: recover() sees no panic; an error comes with empty output.", len(Kinds)),
 		Assume:     []string{"fixture methods and helper fixtures are total themselves, so a panic is the engine's or a built-in helper's", "process-fatal errors are caught by the supervisor through the journal"},
 		Batches:    batchesQT(32, 64),
 		Run:        c04Run,
